@@ -9,6 +9,7 @@ use std::panic::{catch_unwind, AssertUnwindSafe};
 mod codec;
 mod conn;
 mod names;
+mod proto;
 mod reqp;
 mod response;
 mod strp;
@@ -65,6 +66,7 @@ fn dispatch(mode: &str, a: &Args) -> Args {
     // each module owns its modes: `dispatch(mode, args) -> Option<Args>`
     None.or_else(|| codec::dispatch(mode, a))
         .or_else(|| names::dispatch(mode, a))
+        .or_else(|| proto::dispatch(mode, a))
         .or_else(|| response::dispatch(mode, a))
         .or_else(|| reqp::dispatch(mode, a))
         .or_else(|| strp::dispatch(mode, a))
